@@ -24,7 +24,7 @@ Content == {"out-addr", "out-split", "fee-shift", "arb", "claim", "contract", "r
 Witness == {"sig-flip", "sig-drop", "sig-extra", "sig-swap", "pre-wrong", "pre-extra", "pre-drop"}
 Keys    == {"other-policy", "other-key", "proposed-keys", "renew-other-keys", "renew-stale-keys", "attest-other-key",
             "fnd-unauthorised", "contract-sig-flip", "renewal-sig-flip", "attest-sig-flip", "timelocked-policy",
-            "relabel-parent", "stale-keys"}
+            "relabel-parent", "stale-keys", "alg-swap", "fnd-append"}
 Tampers == Content \cup Witness \cup Keys
 
 \* ---- shapes ---------------------------------------------------------------------
@@ -33,13 +33,17 @@ Tampers == Content \cup Witness \cup Keys
 Shape(has, covered, wit, any, keys) == [has |-> has, covered |-> covered, wit |-> wit, any |-> any, keys |-> keys]
 AllPay == {"out-addr", "out-split", "fee-shift", "arb"}
 Shapes == [
-  v1whole    |-> Shape(AllPay, AllPay, {"sig"}, FALSE, {"other-policy", "other-key"}),
+  \* alg-swap: the same key bytes presented under an algorithm nobody verifies - other unlock conditions, another address
+  v1whole    |-> Shape(AllPay, AllPay, {"sig"}, FALSE, {"other-policy", "other-key", "alg-swap"}),
   v1partial  |-> Shape(AllPay \cup {"uncovered-out"}, {"out-addr", "out-split", "fee-shift"}, {"sig"}, FALSE, {"other-policy", "other-key"}),
   v1multisig |-> Shape(AllPay, AllPay, {"sig", "sig2"}, FALSE, {"other-policy", "other-key"}),
   \* a key of an unknown algorithm is satisfied by any signature bytes (documented legacy rule), so nothing binds the content
   v1unknown  |-> Shape(AllPay, {}, {"sig"}, TRUE, {"other-policy"}),
-  v1sf       |-> Shape({"claim", "out-addr", "arb"}, {"claim", "out-addr", "arb"}, {"sig"}, FALSE, {"other-policy", "other-key"}),
-  v1revision |-> Shape({"revision", "arb"}, {"revision", "arb"}, {"sig"}, FALSE, {"other-policy", "other-key"}),
+  v1sf       |-> Shape({"claim", "out-addr", "arb"}, {"claim", "out-addr", "arb"}, {"sig"}, FALSE, {"other-policy", "other-key", "alg-swap"}),
+  v1revision |-> Shape({"revision", "arb"}, {"revision", "arb"}, {"sig"}, FALSE, {"other-policy", "other-key", "alg-swap"}),
+  \* a payment the Foundation signs with a partial signature (its input, its output, a memo): a third party must not be
+  \* able to append a Foundation address update that the signature does not cover
+  v1fndpartial |-> Shape({"out-addr", "uncovered-out"}, {"out-addr"}, {"sig"}, FALSE, {"fnd-append", "other-key"}),
   v1foundation |-> Shape({"fnd-addr", "out-addr"}, {"fnd-addr", "out-addr"}, {"sig"}, FALSE, {"fnd-unauthorised", "other-key"}),
   v2pk       |-> Shape(AllPay, AllPay, {"sig"}, FALSE, {"other-policy", "other-key", "relabel-parent"}),
   \* an output created earlier in the same block (no accumulator proof): the claimed parent must still be the real one
@@ -93,5 +97,5 @@ Next == ~done /\ done' = TRUE
 \* coherence of the table
 CoveredPresent == \A s \in ShapeNames : Shapes[s].covered \subseteq Shapes[s].has
 EveryShapeHasRejects == \A s \in ShapeNames : \E t \in Tampers : Applies(s, t) /\ Expected(s, t) = "reject"
-UncoveredOnlyPartial == \A s \in ShapeNames : (Shapes[s].has \ Shapes[s].covered # {}) => (s = "v1partial" \/ Shapes[s].any)
+UncoveredOnlyPartial == \A s \in ShapeNames : (Shapes[s].has \ Shapes[s].covered # {}) => (s \in {"v1partial", "v1fndpartial"} \/ Shapes[s].any)
 =============================================================================
